@@ -368,6 +368,9 @@ def main():
     except (TranslateError, SyntaxError, OSError, IndexError) as e:
         print(f'TRANSLATE-ERROR {e}')
         sys.exit(3)
+    except Exception as e:      # noqa  (an unanticipated construct is a translation failure, not a crash)
+        print(f'TRANSLATE-ERROR unexpected {type(e).__name__}: {e}')
+        sys.exit(3)
     out2 = os.path.join(os.path.dirname(a.out), 'NtvSel.lean')
     for path, t in ((a.out, txt), (out2, txt2)):
         old = open(path).read() if os.path.exists(path) else None
